@@ -73,6 +73,16 @@ func (q *query) evalAtom(p *atom, rows [][]value) int {
 			return triF
 		}
 		if v.Null || l.Null {
+			if q.nullCmpDefinite {
+				// diagnostic variant only (never an oracle): go-mysql-server's ValueRow comparison path yields "equal" for a
+				// NULL operand, so >= and <= come out TRUE and < and > come out (definitely) FALSE
+				switch op {
+				case ">=", "<=":
+					return triT
+				case "<", ">":
+					return triF
+				}
+			}
 			return triU
 		}
 		c := cmpValues(col, v, l)
@@ -486,6 +496,14 @@ func (q *query) aggregate(group [][][]value) crow {
 		}
 	}
 	return mkRow(cls, cells)
+}
+
+// evalNullCmpVariant evaluates the query under the "NULL compares equal" semantics of the known null-comparison defect.
+// It is used only to attribute a violation to that cause (key component), never to decide one.
+func (q *query) evalNullCmpVariant() ([]crow, bool) {
+	q.nullCmpDefinite = true
+	defer func() { q.nullCmpDefinite = false }()
+	return q.eval()
 }
 
 // eval is voice 5. ok=false when the harness does not decide the query.
